@@ -1475,6 +1475,7 @@ impl<R: tokio::io::AsyncRead + Unpin, W: tokio::io::AsyncWrite + Unpin> IoPeer<R
                     }
                     match proto::decode(&frame) {
                         Ok(f) => {
+                            kit::note(format!("io peer got {f:?}"));
                             self.expect_payload = matches!(f, Frame::Data { .. });
                             return Some(f);
                         }
@@ -1533,9 +1534,10 @@ async fn run_io() {
         // Serve A's request for the initial channel and make our own.
         ok = match peer.wait_for(t, |f| matches!(f, Frame::OpenPort { .. })).await {
             Some(Frame::OpenPort { client_port, .. }) => {
+                // (Connect::io returns as soon as both ports exist; the connection future it hands out
+                // is polled again only once the harness has spawned it, so A's answer is not awaited here.)
                 peer.send(&Frame::PortOpened { client_port, server_port: 500 }).await
                     && peer.send(&Frame::OpenPort { client_port: 600, wait: true, id: None }).await
-                    && peer.wait_for(t, |f| matches!(f, Frame::PortOpened { client_port: 600, .. })).await.is_some()
             }
             _ => false,
         };
